@@ -36,7 +36,7 @@ type C05Rep struct {
 // C05Procs are the GOMAXPROCS values of the repetitions of a case.
 var C05Procs = []int{1, 3, 16}
 
-const c05Label = "SUPPLEMENTARY, sampling over Go-runtime nondeterminism (3 processes per case, GOMAXPROCS 1/3/16): not exhaustive; the deciding part is the controlled-scheduler exploration"
+const c05Label = "SUPPLEMENTARY, sampling over Go-runtime nondeterminism (3 processes per case, GOMAXPROCS 1/3/16; the second repeats the simulation in-process before the reported run, the third runs with GOGC=5): not exhaustive; the deciding part is the controlled-scheduler exploration"
 
 // classes of difference, most serious first; a case is reported under the
 // first class that shows.
@@ -126,8 +126,17 @@ func (m *Matrix) C05RepCases(thorough bool) []Case {
 	return out
 }
 
+// withProcs makes the repetition of a case that runs with the given GOMAXPROCS. The repetitions also differ in
+// what the property calls "runs": the GOMAXPROCS=3 process runs the program once before the run it reports
+// (a repeated simulation in one process), and the GOMAXPROCS=16 process collects garbage twenty times as often.
 func withProcs(c Case, procs int) Case {
 	c.Env = append(append([]string{}, c.Env...), fmt.Sprintf("GOMAXPROCS=%d", procs))
+	switch procs {
+	case 3:
+		c.WarmRuns = 1
+	case 16:
+		c.Env = append(c.Env, "GOGC=5")
+	}
 	return c
 }
 
